@@ -49,10 +49,16 @@ def maxBacktickSize (code : List Char) : Nat :=
 /-- `"`".repeat(n)` -/
 def backticks (n : Nat) : Line := List.replicate n '`'
 
-/-- `if config_text.trim().is_empty() { "" } else { format!(" {{{}}}", config_text.trim_start()) }` -/
+/-- `trim_start_matches([' ', '\t'])`: what YAML itself skips in front of the first key -/
+def blankStart : List Char → List Char
+  | [] => []
+  | c :: r => if c = ' ' ∨ c = '\t' then blankStart r else c :: r
+
+/-- `if config_text.trim().is_empty() { "" } else { format!(" {{{}}}", config_text.trim_start_matches([' ', '\t'])) }`
+(until fix 15b47d2: `trim_start()`, which also dropped Unicode white space that YAML reads as part of the first key) -/
 def configSuffix (cfg : Numbered) : List Char :=
   let text := joinNumbered cfg
-  if (trim text).isEmpty then [] else ' ' :: '{' :: (trimStart text ++ ['}'])
+  if (trim text).isEmpty then [] else ' ' :: '{' :: (blankStart text ++ ['}'])
 
 /-- `for (_, line) in &lines { updated.push_str(&line.assure_newline()) }` (comment lines, front-matter lines) -/
 def commentText (comments : Numbered) : List Char := comments.flatMap (fun c => assureNewline c.2)
